@@ -51,6 +51,7 @@ type seqStore struct {
 	bgdone int64
 	inOp   int64 // a client command is executing: the post-rotation flush is parked until it returns
 	noQuiesce int64
+	unloaded  []int // buckets that were served and have been hot-unloaded: their files legitimately stay where they are
 }
 
 var curStore *seqStore
@@ -260,6 +261,9 @@ func (s *seqStore) strayFiles() []string {
 	for _, b := range s.cfg.served {
 		served[bucketDirOf(s.cfg.home, s.cfg.nb, b)] = true
 	}
+	for _, b := range s.unloaded {
+		served[bucketDirOf(s.cfg.home, s.cfg.nb, b)] = true
+	}
 	var stray []string
 	filepath.Walk(s.cfg.home, func(p string, info os.FileInfo, err error) error {
 		if err != nil || info.IsDir() {
@@ -363,6 +367,34 @@ func (s *seqStore) doList(c *Ctx, prefix string) {
 		body := strings.TrimSuffix(string(item.Body), "\n")
 		c.line("list %s => [%s]", pp, strings.ReplaceAll(body, "\n", "|"))
 	}
+}
+
+// doUnload: hot-unload a served bucket through HStore.ChangeRoute (what the web handler /route/reload does); from then
+// on the bucket is not served: its keys miss, writes are refused, upper-level listings no longer contain it
+func (s *seqStore) doUnload(c *Ctx, bkt int) {
+	newRoute := store.Conf.DBRouteConfig
+	newRoute.BucketsStat = append([]int{}, store.Conf.BucketsStat...)
+	newRoute.BucketsStat[bkt] = 0
+	var err error
+	p := guard(func() { _, _, err = s.hs.ChangeRoute(newRoute) })
+	switch {
+	case p != "":
+		c.line("unload %d => PANIC", bkt)
+		return
+	case err != nil:
+		c.line("unload %d => ERR", bkt)
+		return
+	}
+	store.Conf.DBRouteConfig = newRoute // as the web handler does after ChangeRoute
+	var rest []int
+	for _, b := range s.cfg.served {
+		if b != bkt {
+			rest = append(rest, b)
+		}
+	}
+	s.cfg.served = rest
+	s.unloaded = append(s.unloaded, bkt)
+	c.line("unload %d => ok", bkt)
 }
 
 // listProbes: prefixes of the hashes of the pool keys (all lengths that matter) and some neighbours
@@ -925,11 +957,32 @@ func seqCase(c *Ctx, r *RNG, id string, cfg seqCfg) {
 		}
 		nops = r.Intn(12)
 	}
+	unloadAt := -1
+	if ur := r.Fork(991); cfg.nb >= 16 && len(cfg.served) >= 2 && !cfg.collide && !cfg.phased && ur.Chance(10) {
+		unloadAt = ur.Intn(nops + 1)
+	}
 	for i := 0; i < nops; i++ {
 		if f := theHub.takeFatal(); f != "" {
 			c.line("fatal => %s", strings.ReplaceAll(f, "\n", " "))
 			c.line("end")
 			return
+		}
+		if i == unloadAt && len(s.cfg.served) >= 2 {
+			// a served bucket is hot-unloaded (ChangeRoute waits 10 s before it closes the bucket): listings above
+			// bucket level before and after, and reads of its keys after
+			ur := r.Fork(992)
+			bkt := s.cfg.served[ur.Intn(len(s.cfg.served))]
+			for _, pfx := range []string{"", fmt.Sprintf("%x", bkt>>4&15), fmt.Sprintf("%x", bkt&15)} {
+				s.doList(c, pfx)
+			}
+			s.doUnload(c, bkt)
+			c.count("op.unload")
+			for _, pfx := range []string{"", fmt.Sprintf("%x", bkt>>4&15), fmt.Sprintf("%x", bkt&15)} {
+				s.doList(c, pfx)
+			}
+			for j := 0; j < 6 && j < len(keys); j++ {
+				s.doGet(c, keys[ur.Intn(len(keys))])
+			}
 		}
 		k := keys[r.Intn(len(keys))]
 		ts += uint32(r.Intn(3))
@@ -1210,6 +1263,9 @@ func seqReplay(c *Ctx, base string) {
 				pp = ""
 			}
 			s.doList(c, pp)
+		case "unload":
+			b, _ := strconv.Atoi(l.args[0])
+			s.doUnload(c, b)
 		case "flush":
 			s.flushAll()
 			if f := theHub.takeFatal(); f != "" {
